@@ -1,0 +1,104 @@
+//! Verification hooks. Compiled only with the `verif-hooks` feature; not part of the public API
+//! and without any stability guarantees.
+//!
+//! * Step points: `verif_step!(SITE)` calls [`step`] immediately before the shared-memory access
+//!   (or at the branch) it names. Without an installed hook it is one relaxed load.
+//! * Read-only accessors for the debt node list and the thread-local bookkeeping.
+
+use alloc::vec::Vec;
+use core::sync::atomic::{AtomicUsize, Ordering};
+
+macro_rules! sites {
+    ($($name: ident),* $(,)?) => {
+        /// Identifiers of the step points.
+        #[allow(non_camel_case_types, missing_docs, clippy::upper_case_acronyms)]
+        #[repr(u16)]
+        #[derive(Copy, Clone, Debug, Eq, PartialEq)]
+        pub enum Site { $($name),* }
+        /// Names of the step points, indexed by `Site as usize`.
+        pub const SITES: &[&str] = &[$(stringify!($name)),*];
+    }
+}
+
+sites! {
+    // lib.rs
+    SWAP_XCHG,
+    // strategy/hybrid.rs
+    ATTEMPT_LOAD, ATTEMPT_CONFIRM, ATTEMPT_CONFIRMED, ATTEMPT_RETURNED, ATTEMPT_PREPAID,
+    FALLBACK_LOAD, FALLBACK_CONFIRMED, FALLBACK_HELPED, FALLBACK_UNUSED_PAID,
+    CAS_XCHG, CAS_RETRY,
+    // debt/mod.rs
+    DEBT_PAY, PAYALL_BEGIN, PAYALL_NODE, PAYALL_END,
+    // debt/fast.rs
+    FAST_SCAN, FAST_SWAP, FAST_FULL,
+    // debt/helping.rs
+    HELPING_ADDR_STORE, HELPING_CTRL_GEN,
+    HELP_CTRL_LOAD, HELP_ADDR_LOAD, HELP_CTRL_RELOAD, HELP_OTHER_STORAGE, HELP_REPLACEMENT,
+    HELP_SPACE_LOAD, HELP_HANDOVER_STORE, HELP_CTRL_CAS, HELP_CAS_OK, HELP_CAS_LOST,
+    CONFIRM_SLOT, CONFIRM_CTRL, CONFIRM_HANDOVER,
+    // debt/list.rs
+    LIST_HEAD_LOAD, COOLDOWN_START, COOLDOWN_CHECK, COOLDOWN_WRITERS, COOLDOWN_CAS,
+    WRITER_ADD, WRITER_SUB, NODE_CLAIM, NODE_REUSED, NODE_NEW, NODE_PUSH,
+    WITH_TLS_GONE, HELPING_WRAP,
+    // cache.rs
+    CACHE_LOAD,
+}
+
+static HOOK: AtomicUsize = AtomicUsize::new(0);
+
+/// Installs (or removes) the step hook.
+pub fn set_step_hook(hook: Option<fn(u16)>) {
+    HOOK.store(hook.map(|f| f as usize).unwrap_or(0), Ordering::Relaxed);
+}
+
+/// A step point.
+#[inline]
+pub fn step(site: Site) {
+    let hook = HOOK.load(Ordering::Relaxed);
+    if hook != 0 {
+        let hook: fn(u16) = unsafe { core::mem::transmute(hook) };
+        hook(site as u16);
+    }
+}
+
+/// Snapshot of one debt node (relaxed reads, no side effects).
+#[derive(Clone, Debug)]
+pub struct NodeSnapshot {
+    /// Address of the node.
+    pub addr: usize,
+    /// 0 = unused, 1 = used, 2 = cooldown.
+    pub in_use: usize,
+    /// Number of writers currently inside the node.
+    pub active_writers: usize,
+    /// The fast slots.
+    pub fast: [usize; 8],
+    /// The helping slot.
+    pub helping: usize,
+    /// The control word of the helping slot.
+    pub control: usize,
+    /// Address the helping reader loads from.
+    pub active_addr: usize,
+}
+
+/// The value of an empty debt slot.
+pub const NO_DEBT: usize = crate::debt::Debt::NONE;
+
+/// Snapshots of all the nodes (newest first).
+pub fn nodes() -> Vec<NodeSnapshot> {
+    crate::debt::Node::verif_nodes()
+}
+
+/// Address of the node owned by the current thread (`None` if none or TLS is gone).
+pub fn thread_node() -> Option<usize> {
+    crate::debt::LocalNode::verif_thread_node()
+}
+
+/// The current thread's helping generation counter (`None` if the TLS is gone).
+pub fn thread_generation() -> Option<usize> {
+    crate::debt::LocalNode::verif_generation()
+}
+
+/// Presets the current thread's helping generation counter. Returns success.
+pub fn set_thread_generation(gen: usize) -> bool {
+    crate::debt::LocalNode::verif_set_generation(gen)
+}
